@@ -93,6 +93,38 @@ Fixpoint gf (sk : skel) (p : aparam) (c : acur) : option acur :=
 Definition global_free (sk : skel) (p : aparam) : bool :=
   match gf sk p AUnset with Some _ => true | None => false end.
 
+(* A second, coarser analysis that is precise at joins: the rng variable is either SAFE (unset, or some generator
+   object) or possibly the global generator.  It does not promise that the call completes (a draw on an unset rng
+   raises: no global draw either), only that no draw reaches the global generator.  Used for the skeletons that
+   the harness extracts from the source, where a generator may be bound in one branch only. *)
+Inductive wcur := WSafe | WUnsafe.
+Definition wle (a b : wcur) : bool := match a, b with WUnsafe, WSafe => false | _, _ => true end.
+Definition wjoin (a b : wcur) : wcur := match a, b with WSafe, WSafe => WSafe | _, _ => WUnsafe end.
+Definition wabsc (c : option gen) : wcur := match c with Some GGlobal => WUnsafe | _ => WSafe end.
+Definition wabsp (p : rsval) : wcur := match p with VNone | VGen GGlobal => WUnsafe | _ => WSafe end.
+Definition warg (a : argexp) (p c : wcur) : wcur :=
+  match a with ARaw => p | ARng => c | ANone => WUnsafe | AConst _ => WSafe end.
+
+Fixpoint gfw (sk : skel) (p c : wcur) : option wcur :=
+  match sk with
+  | Skip => Some c
+  | Seq a b => match gfw a p c with Some c1 => gfw b p c1 | None => None end
+  | Branch _ a b => match gfw a p c, gfw b p c with Some c1, Some c2 => Some (wjoin c1 c2) | _, _ => None end
+  | For _ _ body =>
+      match gfw body p c with
+      | Some c1 => if wle c1 c then Some c
+                   else match gfw body p WUnsafe with Some _ => Some WUnsafe | None => None end
+      | None => None
+      end
+  | Check => Some p
+  | Draw _ => match c with WSafe => Some WSafe | WUnsafe => None end
+  | DrawNp _ => None
+  | Call a body => match gfw body (warg a p c) WSafe with Some _ => Some c | None => None end
+  end.
+
+(* random_state is an int, a generator object other than the global one, or junk *)
+Definition global_free_w (sk : skel) : bool := match gfw sk WSafe WSafe with Some _ => true | None => false end.
+
 (* no draw at all, from any generator (RNG-free functions) *)
 Fixpoint draw_free (sk : skel) : bool :=
   match sk with
@@ -388,7 +420,14 @@ Definition sk_tt_cross (o : opts) : skel :=
 (* tensorly/regression *)
 Definition sk_cp_regressor (o : opts) : skel := Seq Check (Seq (rep (order o - 1 + o_aux o) (Draw 5)) (For 1 (o_iters o) Skip)).
 Definition sk_tucker_regressor (o : opts) : skel := Seq Check (Seq (Draw 5) (Seq (rep (order o - 1) (Draw 5)) (For 1 (o_iters o) Skip))).
-Definition sk_cp_plsr (o : opts) : skel := For 1 (o_iters o) Skip.       (* accepts random_state, never uses it *)
+(* CP_PLSR accepts random_state and never uses it: fit calls initialize_cp(Z, 1, normalize_factors=True) WITHOUT
+   random_state (Z = X contracted over the sample mode; default init="svd", svd="truncated_svd", no mask).  That
+   call could draw (from the GLOBAL generator) only through the padding branch `shape[mode] < rank` with rank 1,
+   i.e. for an empty mode. *)
+Definition plsr_opts (o : opts) : opts :=
+  {| o_shape := tl (o_shape o); o_rank := 1; o_init := ISvd; o_svd := STruncated; o_mask := false; o_nrep := 0;
+     o_iters := 0; o_aux := 0 |}.
+Definition sk_cp_plsr (o : opts) : skel := For 1 (o_iters o) (Call ANone (sk_initialize_cp (plsr_opts o))).
 
 (* no random_state argument: module-level draws (outside the property's statement; modelled for the trace) *)
 Definition sk_power_iteration (o : opts) : skel := rep (o_aux o) (Seq (rep (order o) (DrawNp 1)) (rep (o_iters o) Skip)).
